@@ -204,6 +204,8 @@ def units():
                          ('erase__pE', ['C03', 'C02', 'C09', 'C19']), ('erase__pE_pE', ['C03', 'C02', 'C09', 'C19']), ('extract__pE', ['C03', 'C02', 'C19']),
                          ('insert__rr%s__node_type' % FS, ['C03', 'C02', 'C09', 'C12', 'C19']), ('insert__pE_rr%s__node_type' % FS, ['C03', 'C02', 'C09', 'C12', 'C19']),
                          ('emplace__rri32', ['C03', 'C02', 'C09', 'C12', 'C19']), ('emplace_hint__pE_rri32', ['C03', 'C02', 'C09', 'C12', 'C19']),
+                         ('steal_vector__v', ['C03', 'C02', 'C06', 'C07']), ('ctor__rr%s_rA' % FS, ['C03', 'C02', 'C06', 'C07']), ('ctor__r%s_rA' % FS, ['C03', 'C02', 'C06', 'C09']),
+                         ('op_eq__r%s_c' % FS, ['C03', 'C20']), ('op_ne__r%s_c' % FS, ['C03', 'C20']),
                          ('swap__r' + FS, ['C03', 'C02', 'C06', 'C07']), ('ctor__v', ['C03', 'C02', 'C06']), ('ctor__rA', ['C03', 'C02', 'C06']), ('ctor__rGhostCmp_rA', ['C03', 'C02', 'C06']),
                          ('dtor__v', ['C02', 'C06']), ('reserve__' + fsz, ['C03', 'C07', 'C18']), ('shrink_to_fit__v', ['C03', 'C18']), ('capacity__v_c', ['C03', 'C20']),
                          ('max_size__v_c', ['C03', 'C20']), ('key_comp__v_c', ['C03', 'C20']), ('value_comp__v_c', ['C03', 'C20'])]:
@@ -213,6 +215,10 @@ def units():
                 throws_reachable=m.startswith(('insert', 'reserve', 'shrink_to_fit')), timeout=(600 if fsz == 'u8' else 2400))
             if m == 'ctor__rGhostCmp_rA':
                 us[-1]['defs']['FS_CTOR_HAS_CMP'] = '1'
+            if m.startswith('op_'):
+                us[-1]['defs']['FS_NE_RESULT'] = '1' if m.startswith('op_ne') else '0'
+            if m.startswith('ctor__r' + FS):
+                us[-1]['throws_reachable'] = True
             us[-1]['cfg'] = 'sets17'
             us[-1]['defs']['WITH_SETS'] = '1'
             us[-1]['defs']['FS_T'] = 'struct ' + FS
@@ -298,8 +304,9 @@ def units():
         if u['id'].startswith('op.') and u['elem'] == 'ElemNR' and u['cfg'] == 'main17':
             name = u['id'].split('.')[1]
             for cfg, tier in (('main14dbg', 'quick' if name in ('push_back_rE', 'insert_pE_rE', 'erase_pE_pE', 'resize_u8', 'emplace_back_rE', 'clear_v') else 'thorough'),
-                              ('main20', 'quick' if name in ('push_back_rE', 'insert_pE_rrE', 'erase_pE') else 'thorough')):
-                if cfg == 'main14dbg' and name.startswith('append'):
+                              ('main20', 'quick' if name in ('push_back_rE', 'insert_pE_rrE', 'erase_pE') else 'thorough'),
+                              ('main11dbg', 'quick' if name in ('push_back_rrE', 'insert_pE_u8_rE', 'erase_pE', 'assign_u8_rE', 'emplace_pE_rE') else 'thorough')):
+                if cfg in ('main14dbg', 'main11dbg') and name.startswith(('append', 'pop_back_val')):
                     continue            # append is part of the non-standard extras: not public in this configuration
                 v = dict(u); v['defs'] = dict(u['defs'])
                 v['id'] = u['id'].replace('op.', 'cfg.%s.' % cfg, 1); v['cfg'] = cfg; v['props'] = ['C16']; v['tier'] = tier
